@@ -130,6 +130,12 @@ func Library(dir string) (*Report, error) {
 			}
 		}
 		off = func(p token.Pos) int { return fset.Position(p).Offset }
+		for _, im := range f.Imports { // sources of nondeterminism that are behind no seam
+			switch im.Path.Value {
+			case `"time"`, `"math/rand"`, `"math/rand/v2"`, `"os"`, `"runtime"`:
+				rep.Unmodelled = append(rep.Unmodelled, name+" imports "+im.Path.Value)
+			}
+		}
 		curFunc := ""
 		inOnce := 0
 		var visitBlock func(list []ast.Stmt, tag string)
@@ -308,11 +314,13 @@ func contains(l []string, s string) bool {
 // writeRuntime generates zzsimrt and zzsimrt/simsync inside the scratch module.
 func writeRuntime(dir, rtPath string) error {
 	files := map[string]string{
-		"tmpl/zzsimrt.go.txt":    "zzsimrt/zzsimrt.go",
-		"tmpl/sched.go.txt":      "zzsimrt/sched.go",
-		"tmpl/keys.go.txt":       "zzsimrt/keys.go",
-		"tmpl/simsync.go.txt":    "zzsimrt/simsync/simsync.go",
-		"tmpl/simsync121.go.txt": "zzsimrt/simsync/simsync121.go",
+		"tmpl/zzsimrt.go.txt":        "zzsimrt/zzsimrt.go",
+		"tmpl/sched.go.txt":          "zzsimrt/sched.go",
+		"tmpl/keys.go.txt":           "zzsimrt/keys.go",
+		"tmpl/simsync.go.txt":        "zzsimrt/simsync/simsync.go",
+		"tmpl/simsync121.go.txt":     "zzsimrt/simsync/simsync121.go",
+		"tmpl/simsync_race.go.txt":   "zzsimrt/simsync/race.go",
+		"tmpl/simsync_norace.go.txt": "zzsimrt/simsync/norace.go",
 	}
 	for src, dst := range files {
 		b, err := tmpl.ReadFile(src)
